@@ -2,11 +2,26 @@
    Only statements, closed by [exact], pinned by [Check], with their assumptions printed.
    Model: Model/VecConc.v (small-step model of src/vec.rs with the ghost linearisation log);
    proofs: Proofs/VecConcBase.v (lock word, memory, abstract = concrete), Proofs/VecConcLin.v (the log),
-   Proofs/VecConcFacts.v (consequences, validator soundness).
+   Proofs/VecConcFacts.v (consequences, validator soundness), Proofs/VecConcRT.v (real-time form),
+   Proofs/VecConcStrict.v (exactness of the linearisation search, the refutation witness).
    All statements quantify over every trace [tr] of labelled steps (every interleaving / schedule, any number of
-   threads, any programs: a thread may invoke any call whenever it is idle). *)
+   threads, any programs: a thread may invoke any call whenever it is idle).
+
+   FULL STATEMENT of the property text (every call, including collect with the VALUES it returns and the updates through
+   handles, takes effect at one point of one order consistent with real time):
+       forall nl nth es, vcheck nl nth es = true ->
+         strict_linearisation_exists nl (fst (extract es))          (Spec/SpecC10.v: collect is ONE atomic action)
+   This is FALSE of the model and of the code: [c10_strict_refuted] exhibits a real trace of the implementation that the
+   validator accepts (a path of the model) and that has no such order - collect reads each child with its own load under
+   the read lock while updates through handles take no lock, so one collection can show a thread's later update to child b
+   without its earlier, completed, update to child a.  Known finding C10-collect-values-not-snapshot (not a small fix).
+   WHAT IS PROVED (for all traces): [c10_lin], the same statement with a collection taking effect as an atomic KEY SET (at
+   its read-lock acquisition) followed by one linearised READ PER CHILD, and everything the property text names beyond the
+   value snapshot: same child on racing first requests, no lost / double-counted update, no duplicate keys, removed keys
+   not collected, handles survive removal, recreated children start from zero, sequential histories. *)
 Require Import PV.Base.Prelude PV.Model.Conc PV.Model.VecConc.
 Require Import PV.Proofs.VecConcBase PV.Proofs.VecConcLin PV.Proofs.VecConcFacts PV.Proofs.VecConcRT.
+Require Import PV.Spec.SpecC10 PV.Proofs.VecConcStrict.
 From Coq Require Import Sorted Permutation.
 Open Scope N_scope.
 
@@ -136,6 +151,28 @@ Theorem c10_validated_traces_are_model_paths nl nth es :
   vcheck nl nth es = true -> exists tr s, reach nl tr s /\ visible tr = es /\ vfinal nth s = true.
 Proof. exact (validated_is_reachable nl nth es). Qed.
 
+(* ---- the literal (strict) statement is refuted; the search that decides it on a trace is exact ---- *)
+(* the witness: a real trace of the implementation, accepted by the validator, hence the visible part of a model path; its calls
+   are well-formed; NO order of its atomic actions (get-or-create, update, collect as one action with keys and values) consistent
+   with program order and real time is reproduced by a sequential map; the relaxed spec holds on it; it is in the known class *)
+Theorem c10_strict_refuted :
+  vcheck 1 2 snapshot_trace = true
+  /\ (exists tr s, reach 1 tr s /\ visible tr = snapshot_trace)
+  /\ snd (extract snapshot_trace) = true
+  /\ ~ strict_linearisation_exists 1 (fst (extract snapshot_trace))
+  /\ spec_c10_strict 1 snapshot_trace = false /\ spec_c10_relaxed 1 snapshot_trace = true /\ known_c10 1 snapshot_trace = true.
+Proof. exact strict_refuted_on_witness. Qed.
+
+(* a NotFound answer of the budgeted search is exact: no interleaving was skipped (an exhausted budget answers Unknown instead) *)
+Theorem c10_strict_search_exact nl cs : lin_search true nl cs = NotFound -> ~ strict_linearisation_exists nl cs.
+Proof. exact (strict_search_exact nl cs). Qed.
+
+(* the one-pass classifier used by the check driver is the three specs *)
+Theorem c10_classifier_is_spec nl es :
+  spec_c10_strict nl es = negb ((classify nl es =? 1) || (classify nl es =? 2))
+  /\ known_c10 nl es = (classify nl es =? 1) /\ strict_unknown nl es = (classify nl es =? 3).
+Proof. exact (conj (classify_strict nl es) (conj (classify_known nl es) (classify_unknown nl es))). Qed.
+
 (* ---- non-vacuity ---- *)
 (* a real trace of the implementation: two threads race on the first request of one key (both miss under the read lock, thread 1
    inserts, thread 0's second lookup hits); the validator accepts it and the collection shows both updates on one child *)
@@ -196,6 +233,12 @@ Check c10_no_duplicate_keys : forall nl tr s i t l, vrun (vinit nl) tr = Some s 
 Check c10_removed_not_collected : forall nl tr s L1 o r k L2 kcs L3, vrun (vinit nl) tr = Some s ->
   chron s = L1 ++ (o, r) :: L2 ++ (ACollect, RKeys kcs) :: L3 -> kills k o ->
   (forall o' r', In (o', r') L2 -> o' <> AGet k) -> ~ In k (map fst kcs).
+Check c10_strict_refuted :
+  vcheck 1 2 snapshot_trace = true
+  /\ (exists tr s, reach 1 tr s /\ visible tr = snapshot_trace)
+  /\ snd (extract snapshot_trace) = true
+  /\ ~ strict_linearisation_exists 1 (fst (extract snapshot_trace))
+  /\ spec_c10_strict 1 snapshot_trace = false /\ spec_c10_relaxed 1 snapshot_trace = true /\ known_c10 1 snapshot_trace = true.
 Check c10_validated_traces_are_model_paths : forall nl nth es,
   vcheck nl nth es = true -> exists tr s, reach nl tr s /\ visible tr = es /\ vfinal nth s = true.
 
@@ -216,6 +259,9 @@ Print Assumptions c10_recreated_is_fresh.
 Print Assumptions c10_insert_allocates_fresh_cell.
 Print Assumptions c10_sequential.
 Print Assumptions c10_validated_traces_are_model_paths.
+Print Assumptions c10_strict_refuted.
+Print Assumptions c10_strict_search_exact.
+Print Assumptions c10_classifier_is_spec.
 Print Assumptions c10_race_validated.
 Print Assumptions c10_remove_recreate_validated.
 Print Assumptions c10_values_not_atomic_snapshot.
